@@ -203,7 +203,7 @@ def tv_unit(eng, u, cpath):
     from engine import STR_STUBS, TO_ASCII
     if u.stubs and sorted(x for x in u.stubs if x != TO_ASCII) != sorted(STR_STUBS):
         return {"skipped": True}
-    roots = [r for r in u.roots if SPEC.get(r, {}).get("max_n", 48) != 0 and not SPEC.get(r, {}).get("skip")]
+    roots = [r for r in u.roots if r.startswith("vk_") and SPEC.get(r, {}).get("max_n", 48) != 0 and not SPEC.get(r, {}).get("skip")]
     if not roots:
         return {"skipped": True}
     c = eng.translate(u)
